@@ -43,6 +43,9 @@ def cells(tier):
         out.append(cell(f"s{size} A2 name g|flush|cgroupA,B1 re-uses g slowecb0", sc, MON))
         sc = scen(pool(size), [[A("A", 1)], [FLUSH_RE], [CALL, A("B", 1)]], outcomes=["ret"], ecb="slow", ccb="slow", slow_ids=[0])
         out.append(cell(f"s{size} A1|flushRE|call,B1 (generated name re-used) slowcbs", sc, MON))
+    # two flushes overlapping around a spawner that was cancelled in the same loop iteration
+    sc = scen(pool(1), [[A("X", 1), A("A", 2)], [cgroup("A"), FLUSH_RE], [FLUSH_RE], [FLUSH]], outcomes=["ret"])
+    out.append(cell("s1 X1,A2|cgroupA,flushRE|flushRE|flush (just-cancelled spawner)", sc, MON))
     # a worker that absorbs its cancellation (keeps running, or winds down normally), flush() in between: finished ones
     # become unknown, the running one stays counted and cancellable (probe_cancel under the C06 oracle)
     sc = scen(pool(2), [[A("A", 2, worker="absorb")], [cancel(rid("A", 0))], [FLUSH], [["probe_cancel", 2]]], outcomes=["ret"], ecb="plain", ccb="plain")
